@@ -74,7 +74,16 @@ def r10a(ck, fb):
         for s0 in ins:
             nxt = b.blocks[s0.bb]['t']['t']
             for what, ns in (('listener', ln), ('subscriber', sn)):
-                ok = bool(ns) and cfg.must_pass_before_return(b, nxt, {x.bb for x in ns} | same)
+                nb = {x.bb for x in ns}
+                ok = bool(ns) and cfg.must_pass_before_return(b, nxt, nb | same)
+                # ... and the comparison really decides: from one edge of every md5 switch that can be met on the way the notification is unavoidable
+                if ok:
+                    met = [g for g in same if g in cfg.live_blocks(b) and (g in cfg.reach_from(b, [nxt], blocked_blocks=list(nb)) or g == nxt)]
+                    for g in met:
+                        tt = b.blocks[g]['t']
+                        outs = [tb for (_, tb) in tt['targets']] + [tt['otherwise']]
+                        if not any(cfg.must_pass_before_return(b, tb, nb) for tb in outs):
+                            ok = False
                 ck.require(ok, 'R10a', 'inner_set_config:insert->%s.notify' % what, s0.where(),
                            'a full value (committed data import, record of a snapshot installed on a running follower) replaces the served content '
                            'without %s.notify: a %s holding the previous md5 keeps waiting although the key changed' % (
